@@ -516,3 +516,182 @@ theorem C07_dataclass_immutable (hwf : WF C) {f : Field} (hf : f ∈ C.fields) (
   | _ => rfl
 
 end Utv.C07
+
+/-! ### non-vacuity, the known defect, and the behaviour before the repair (kernel-checked witnesses) -/
+namespace Utv.C07
+open Map
+
+/-- values are numbers: below 100 is valid, 1000..1099 is convertible (to the last two digits), the rest is invalid -/
+def cv (x : Nat) : Option Nat :=
+  if x < 100 then some x else if 1000 ≤ x ∧ x < 1100 then some (x - 1000) else none
+
+def W₀ : World Nat where
+  parse _ x := cv x
+  parseAdd x := cv x
+  getter _ xs := some (xs.sum % 100)
+  deferred _ := none
+
+def conf₀ (_ : String) (v : Nat) : Prop := v < 100
+def addOk₀ (v : Nat) : Prop := v < 100
+
+def fB : Field := { attname := "b", name := "b", aliases := ["b"], required := true }
+def fC : Field := { attname := "c", name := "c@", aliases := ["c@", "c"], dependants := ["p"] }
+def fM : Field := { attname := "m", name := "m", aliases := ["m"], immutable := true }
+def fP : Field := { attname := "p", name := "p", aliases := ["p"], isProp := true, deps := ["c@"] }
+
+/-- `class K(Schema): __options__ = Options(addition=int); b: int; c: int = Field(alias='c@', required=False);
+m: int = Field(immutable=True, required=False); @property p -> computed from c` -/
+def C₀ : Cls := { fields := [fB, fC, fM, fP], opts := { addition := .typed } }
+
+/-- `K(b=1, c=2, m=3)` as handed to `__post_init__`, and after it -/
+def s₀₀ : State Nat := { data := [("b", 1), ("c@", 2), ("m", 3)], attrs := [("b", 1), ("c", 2), ("m", 3)] }
+def s₀ : State Nat := postInit C₀ W₀ s₀₀
+
+theorem cv_lt {x v : Nat} (h : cv x = some v) : v < 100 := by
+  unfold cv at h
+  split at h
+  · cases h; assumption
+  · split at h
+    · simp only [Option.some.injEq] at h; omega
+    · cases h
+
+theorem laws₀ : Laws W₀ conf₀ addOk₀ :=
+  ⟨fun _ _ _ h => cv_lt h, fun _ _ h => cv_lt h, fun _ xs v h => by
+    simp only [W₀, Option.some.injEq] at h
+    subst h
+    exact Nat.mod_lt _ (by decide)⟩
+
+theorem total₀ : ∀ p xs, (W₀.getter p xs).isSome = true := fun _ _ => rfl
+
+theorem mem₀ {f : Field} (h : f ∈ C₀.fields) : f = fB ∨ f = fC ∨ f = fM ∨ f = fP := by
+  simpa [C₀] using h
+
+theorem wf₀ : WF C₀ := by
+  refine ⟨?_, ?_, ?_, ?_, ?_, ?_, ?_⟩
+  · decide
+  · decide
+  · intro f hf g hg k h1 h2
+    exact (by decide : ∀ f ∈ C₀.fields, ∀ g ∈ C₀.fields, ∀ k ∈ f.aliases, k ∈ g.aliases → f = g) f hf g hg k h1 h2
+  · decide
+  · decide
+  · decide
+  · intro f hf q hq p hg
+    have := (by decide : ∀ f ∈ C₀.fields, ∀ q ∈ f.dependants, (getField C₀ q).all (fun p => p.name == q) = true) f hf q hq
+    rw [hg] at this
+    simpa using this
+
+/-- what the keys of `s₀₀` are -/
+theorem data₀₀ {k : String} {v : Nat} (h : s₀₀.data.get k = some v) :
+    (k = "b" ∧ v = 1) ∨ (k = "c@" ∧ v = 2) ∨ (k = "m" ∧ v = 3) := by
+  have h : Map.get [("b", 1), ("c@", 2), ("m", 3)] k = some v := h
+  simp only [get_cons, get_nil] at h
+  split at h
+  · cases h; exact Or.inl ⟨by assumption |> Eq.symm, rfl⟩
+  · split at h
+    · cases h; exact Or.inr (Or.inl ⟨by assumption |> Eq.symm, rfl⟩)
+    · split at h
+      · cases h; exact Or.inr (Or.inr ⟨by assumption |> Eq.symm, rfl⟩)
+      · cases h
+
+theorem valid₀₀ : Valid C₀ conf₀ addOk₀ s₀₀ := by
+  refine ⟨?_, ?_, ?_, ?_, ?_, ?_, ?_⟩
+  · intro k v f hk hg
+    rcases data₀₀ hk with ⟨rfl, _⟩ | ⟨rfl, _⟩ | ⟨rfl, _⟩
+    · have : getField C₀ "b" = some fB := by decide
+      rw [this] at hg; cases hg; rfl
+    · have : getField C₀ "c@" = some fC := by decide
+      rw [this] at hg; cases hg; rfl
+    · have : getField C₀ "m" = some fM := by decide
+      rw [this] at hg; cases hg; rfl
+  · intro f _ v hv
+    rcases data₀₀ hv with ⟨_, rfl⟩ | ⟨_, rfl⟩ | ⟨_, rfl⟩ <;> (unfold conf₀; omega)
+  · intro f hf v hv
+    rcases mem₀ hf with rfl | rfl | rfl | rfl <;> simp [s₀₀, get_cons, fB, fC, fM, fP] at hv <;>
+      (subst hv; unfold conf₀; omega)
+  · intro k v hk hg
+    exfalso
+    rcases data₀₀ hk with ⟨rfl, _⟩ | ⟨rfl, _⟩ | ⟨rfl, _⟩ <;> exact absurd hg (by decide)
+  · intro f hf hr _
+    rcases mem₀ hf with rfl | rfl | rfl | rfl <;> first | decide | (exact absurd hr (by decide))
+  · intro f hf hn
+    rcases mem₀ hf with rfl | rfl | rfl | rfl <;> exact absurd hn (by decide)
+  · intro f hf _ hnone
+    rcases mem₀ hf with rfl | rfl | rfl | rfl <;> first | decide | (exact absurd hnone (by decide))
+
+theorem fresh₀₀ : Fresh C₀ W₀ s₀₀ := by
+  intro p hp hpp v hv
+  rcases mem₀ hp with rfl | rfl | rfl | rfl <;> first | (exact absurd hpp (by decide)) | skip
+  have hn : s₀₀.data.get fP.name = none := by decide
+  rw [hn] at hv
+  cases hv
+
+/-- non-vacuity: the hypotheses of the theorems are satisfiable together, on an instance with a required,
+an aliased, an immutable and a property field -/
+example : ∃ (C : Cls) (W : World Nat) (s : State Nat), WF C ∧ Laws W conf₀ addOk₀ ∧
+    (∀ p xs, (W.getter p xs).isSome = true) ∧ Valid C conf₀ addOk₀ s ∧ Fresh C W s :=
+  ⟨C₀, W₀, s₀₀, wf₀, laws₀, total₀, valid₀₀, fresh₀₀⟩
+
+/-- … and they cover histories in which operations change the state and raise -/
+example : s₀.data = [("b", 1), ("c@", 2), ("m", 3), ("p", 2)] := by decide
+example : (hrun false C₀ W₀ [s₀] [.on 0 (.setitem "c" 1007), .copy 0, .on 1 (.pop "c@" none), .on 0 (.setattr "m" 5)]).map
+    (·.data) = [[("b", 1), ("c@", 7), ("m", 3), ("p", 7)], [("b", 1), ("m", 3), ("p", 7)]] := by decide
+example : hNoDefect C₀ W₀ [s₀] [.on 0 (.setitem "c" 1007), .on 0 (.setattr "m" 5), .on 0 (.delitem "p"),
+    .on 0 (.delitem "c")] = true := by decide
+
+/-- **Known defect (stale-dependant-after-delete).**  The full freshness statement is false for the code
+as it is: deleting `c` (schema.py:368-394 recomputes nothing) leaves the property `p` stored with the
+value computed from the deleted `c`. -/
+theorem C07_stale_dependant_witness :
+    Fresh C₀ W₀ s₀ ∧ knownDefect C₀ s₀ (.delitem "c") = true ∧
+      ¬ Fresh C₀ W₀ (step false C₀ W₀ s₀ (.delitem "c")).1 := by
+  refine ⟨C07_fresh_init wf₀ total₀ s₀₀ fresh₀₀, by decide, ?_⟩
+  intro h
+  have := (h fP (by decide) rfl 2 (by decide)).1
+  exact absurd this (by decide)
+
+/-! the behaviour before `fixes/C07-mutators.patch` (`lg = true`) -/
+
+/-- `dict.setdefault`: the raw, non-conforming value lands under the raw key `c`, which is not the
+output name of the field it resolves to. -/
+theorem C07_legacy_setdefault_raw_witness :
+    ¬ Valid C₀ conf₀ addOk₀ (step true C₀ W₀ (step false C₀ W₀ s₀ (.delitem "c")).1 (.setdefault "c" 500)).1 := by
+  intro h
+  have := h.keyName "c" 500 fC (by decide) (by decide)
+  exact absurd this (by decide)
+
+/-- the repaired `setdefault` refuses the same call and changes nothing -/
+example : (step false C₀ W₀ (step false C₀ W₀ s₀ (.delitem "c")).1 (.setdefault "c" 500)).2 = .err .parse := by decide
+
+/-- `dict.__ior__`: an immutable field is overwritten with an unparsed value. -/
+theorem C07_legacy_ior_witness :
+    stored (step true C₀ W₀ s₀ (.ior [("m", 500)])).1 fM ≠ stored s₀ fM := by decide
+
+example : (step false C₀ W₀ s₀ (.ior [("m", 500)])).2 = .err .update := by decide
+
+/-- `dict.popitem`: a required field is removed. -/
+theorem C07_legacy_popitem_witness :
+    present (step true C₀ W₀ { data := [("b", 1)], attrs := [("b", 1)] } .popitem).1 fB = false := by decide
+
+example : (step false C₀ W₀ { data := [("b", 1)], attrs := [("b", 1)] } .popitem).2 = .err .delete := by decide
+
+/-- `__setitem__` with a typed addition stored the raw value: 1005 converts to 5, the raw 1005 is stored. -/
+theorem C07_legacy_addition_raw_witness :
+    (step true C₀ W₀ s₀ (.setitem "x" 1005)).1.data.get "x" = some 1005 ∧
+      (step false C₀ W₀ s₀ (.setitem "x" 1005)).1.data.get "x" = some 5 := by decide
+
+/-- `__field_deleter__` looked for the output name in `__dict__` but popped the attribute name: for an
+aliased field the attribute copy survives and the attribute view disagrees with the keys. -/
+theorem C07_legacy_deleter_witness :
+    ¬ Valid C₀ conf₀ addOk₀ (step true C₀ W₀ s₀ (.delitem "c")).1 := by
+  intro h
+  have := h.viewsOut fC (by decide) rfl (by decide)
+  exact absurd this (by decide)
+
+/-- `pop` never touched `__dict__`: the popped field is still readable as an attribute. -/
+theorem C07_legacy_pop_witness :
+    ¬ Valid C₀ conf₀ addOk₀ (step true C₀ W₀ s₀ (.pop "c" none)).1 := by
+  intro h
+  have := h.viewsOut fC (by decide) rfl (by decide)
+  exact absurd this (by decide)
+
+end Utv.C07
